@@ -451,8 +451,8 @@ pub fn run(ctx: &mut Ctx) {
     // ---- free-running threads putting DISTINCT new items into a full cache (C13): whatever the interleaving, after every put the
     // byte total is within the capacity, and at the end of a round totals, tracked entries and the directory agree
     {
-        let rounds = if ctx.quick() { 6 } else { 60 };
-        let (nthreads, per_thread) = (8usize, 30usize);
+        let rounds = if ctx.quick() { 12 } else { 80 };
+        let (nthreads, per_thread) = (8usize, 80usize);
         let mut rng = ctx.rng.fork(0xD157);
         for round in 0..rounds {
             let _ = std::fs::remove_dir_all(&root);
